@@ -118,7 +118,7 @@ def dispatch (f : String) (j : Json) : Option Json :=
             ("copy_lines", ofLines p.copyLines), ("handed", ofLines (handed p new rect)),
             ("path", Json.str (pathStr p.path)), ("set_ast", Json.bool p.setAst),
             ("first_lineno", ofNat p.firstLineno), ("delta", ofInt p.delta),
-            ("pend", ofNats [p.pendLn, p.pendCol]),
+            ("pend", ofNats [p.pendLn, p.pendCol]), ("rect_in_region", Json.bool (rectInRegion fs rect)),
             ("head_end_new", let h := headEndAfter (p.pendLn, p.pendCol) new rect; ofNats [h.1, h.2]),
             ("ret", ofNats [re.1, re.2]), ("src", ofLines (putSrc lines new rect))]
       | _ => return err "bad rect"
